@@ -98,7 +98,7 @@ def run(pid, tier, seed):
 def corpus_rejections(chk, seed, tier):
     """(c) the serde-valid programs of the semantic and graph corpora must be accepted by the derive and compile."""
     from . import graph, sem
-    for name, corpus in (("sem", sem.sem_corpus(seed, tier, family="c16sem", fixed=False)),
+    for name, corpus in (("sem", sem.sem_corpus(seed, tier, family="c16sem", fixed=True)),
                          ("graph", graph.graph_corpus(seed, tier, family="c16graph"))):
         try:
             derive_errors = corpus.build()
